@@ -33,8 +33,8 @@ class Log(_KernelObject):
 def build_plan(choice: Choice, tier):
     d = choice.draw
     p = {}
-    fam = d(5, "family")
-    p["family"] = ["tmp-single", "tmp-multi", "tmp-multi", "filepool", "tmp-single"][fam]
+    fam = d(6, "family")
+    p["family"] = ["tmp-single", "tmp-multi", "tmp-multi", "filepool", "tmp-single", "tmp-fork"][fam]
     p["use_dir"] = d(4, "use_dir") != 0
     if p["family"] == "tmp-single":
         ops = []
@@ -56,8 +56,15 @@ def build_plan(choice: Choice, tier):
         p["pre_creates"] = [0, 0, 1, 2][d(4, "pre_creates")]     # create() calls before the with statement is entered
         p["raise_after"] = d(len(ops) + 1, "raise_at") if d(2, "raises") == 1 else None   # raise before op i / at the end
         p["multi_proc_flag"] = False
+    elif p["family"] == "tmp-fork":
+        # a pool constructed in one process and used (with-statement, creates, exit) in a REAL forked child
+        p["creates"] = 1 + d(3, "creates")
+        p["child_raises"] = d(2, "child.raises") == 1
+        p["parent_creates_first"] = d(2, "parent.first")
     elif p["family"] == "filepool":
         n = 1 + d(5, "files")
+        # the paths may be given as any iterable; one-shot forms only when the pool is entered once
+        p["files_form"] = ["list", "tuple", "generator", "iterator", "list"][d(5, "files.form")]
         p["modes"] = ["r", "w", "a", "rb", "r"][d(5, "mode")]
         p["n_files"] = n
         p["raise_after"] = d(n + 1, "raise_at") if d(2, "raises") == 1 else None
@@ -67,6 +74,8 @@ def build_plan(choice: Choice, tier):
         # an unusual member of the set: a device file that can be written but not synced or seeked
         p["dev_null_at"] = d(max(1, n - 1), "devnull.at") if (d(4, "devnull") == 3 and p["modes"] in ("w", "a") and n >= 2) else None
         p["missing_at_first_enter"] = d(n, "missing.which") if (d(4, "missing") == 3 and p["modes"] in ("r", "rb")) else None
+        if p["reenter"] or p["missing_at_first_enter"] is not None:
+            p["files_form"] = "list" if p["files_form"] in ("generator", "iterator") else p["files_form"]
     else:
         p["children"] = 1 + d(3, "children")
         p["child_creates"] = [1 + d(3, "child.creates") for _ in range(p["children"])]
@@ -182,6 +191,62 @@ def run_tmp_single(plan, tmpdir):
     return viol, stats
 
 
+def run_tmp_fork(plan, tmpdir):
+    """Real fork: the pool object is constructed in the parent, the with-statement runs in the child."""
+    import windpyutils.files as files
+    viol = []
+    d = tmpdir
+    pool = files.TmpPool(d)
+    pre = [pool.create()] if plan["parent_creates_first"] else []
+    r, w = os.pipe()
+    pid = os.fork()
+    if pid == 0:
+        code = 0
+        try:
+            os.close(r)
+            made = []
+            try:
+                with pool:
+                    for _ in range(plan["creates"]):
+                        made.append(pool.create())
+                    os.write(w, ("\n".join(made)).encode())
+                    if plan["child_raises"]:
+                        raise BodyError("child body")
+            except BodyError:
+                pass
+        except BaseException:  # noqa
+            code = 3
+        finally:
+            os._exit(code)
+    os.close(w)
+    data = b""
+    while True:
+        b = os.read(r, 65536)
+        if not b:
+            break
+        data += b
+    os.close(r)
+    _, status = os.waitpid(pid, 0)
+    made = [x for x in data.decode().split("\n") if x]
+    if os.waitstatus_to_exitcode(status) != 0:
+        viol.append({"class": "tmp-pool", "site": "fork:child-failed", "message": f"child exit status {status}"})
+    if len(made) != plan["creates"] or len(set(made)) != len(made):
+        viol.append({"class": "tmp-pool", "site": "fork:create", "message": f"child created {made}"})
+    left = [p_ for p_ in made + pre if os.path.exists(p_)]
+    # the files created inside the child's with-block, and those the pool already held when the child entered it,
+    # are the child's to remove when it leaves the block (normally or through the exception)
+    if left:
+        viol.append({"class": "tmp-pool", "site": "fork:left-behind",
+                     "message": f"{len(left)} files left after the with block of the forked child "
+                                f"(child created {len(made)}, held before the fork {len(pre)})"})
+    for p_ in left:
+        try:
+            os.remove(p_)
+        except OSError:
+            pass
+    return viol, {"ops": plan["creates"] + 2}
+
+
 def run_filepool(plan, tmpdir):
     import windpyutils.files as files
     viol = []
@@ -199,7 +264,9 @@ def run_filepool(plan, tmpdir):
         paths[plan["dev_null_at"]] = "/dev/null"
     handed = []
     mode = plan["modes"]
-    pool = files.FilePool(paths, mode)
+    form = plan.get("files_form", "list")
+    given = {"list": list(paths), "tuple": tuple(paths), "generator": (x for x in paths), "iterator": iter(list(paths))}[form]
+    pool = files.FilePool(given, mode)
     rounds = 2 if plan["reenter"] else 1
     miss = plan.get("missing_at_first_enter")
     if miss is not None:
@@ -292,6 +359,7 @@ def scenario_multi(k: Kernel, plan, obs):
 
     pool = files.TmpPool(d, multi_proc=True)
     model = []
+    removed = set()
     children = []
     started = 0
     viol = obs["viol"]
@@ -327,6 +395,7 @@ def scenario_multi(k: Kernel, plan, obs):
                         pth = model[op[1] % len(model)]
                         pool.remove(pth)
                         model.remove(pth)
+                        removed.add(pth)
                 elif kind == "flush":
                     # quiescent only if every child had been started and had finished before the flush began
                     # (no yield in this test)
@@ -345,6 +414,15 @@ def scenario_multi(k: Kernel, plan, obs):
                         viol.append({"class": "tmp-pool-multi", "site": "listing", "message": f"len={n} model={len(model)}"})
             start_due(len(plan["ops"]))
             join_all()
+            if not any(o[0] == "flush" for o in plan["ops"]):
+                # everybody has finished and nothing was flushed: the pool must list exactly what the parent and the
+                # children created, minus what the parent removed
+                listing = sorted(pool[i] for i in range(len(pool)))
+                expected = sorted(set(p_ for _, p_ in log.created) - removed)
+                if listing != expected:
+                    viol.append({"class": "tmp-pool-multi", "site": "listing-after-children",
+                                 "message": f"pool lists {len(listing)} paths, {len(expected)} were created and not removed "
+                                            f"(by {sorted({w for w, p_ in log.created})})"})
             if plan["join_at"] == 1:
                 pool.flush()
                 left = [w for w, p_ in log.created if os.path.exists(p_)]
@@ -413,6 +491,8 @@ class Spec:
             try:
                 if plan["family"] == "tmp-single":
                     viol, stats = run_tmp_single(plan, tmpdir)
+                elif plan["family"] == "tmp-fork":
+                    viol, stats = run_tmp_fork(plan, tmpdir)
                 else:
                     viol, stats = run_filepool(plan, tmpdir)
                 leftovers = os.listdir(tmpdir) if plan["family"] == "tmp-single" else []
